@@ -199,7 +199,9 @@ def model_corr(rnd, tier):
     """the recorder model (Macro.v) against the implementation's macro engine driven directly:
     sequences of (start | stop | keys matched by a command, mustWait) -> stored macro text and replayed keys"""
     n = 300 if tier == "quick" else 5000
-    lines = []
+    # corpus first: a nested start with an invalid register keeps the register being recorded (a slip of the OCaml driver
+    # around the model, found by the thorough tier)
+    lines = ["macro 7 0 2 98 65 4 1 55 3 0 0 2 27 8364 4 1 33 2 0 6 1 55"]
     for _ in range(n):
         ops = []
         for _ in range(rnd.randrange(1, 9)):
